@@ -80,12 +80,12 @@ def Outcome.fired {α} : Outcome α → Bool
   | .ok _ f => f
   | _ => false
 
-theorem step_done {α} (st : State α) (op : Op α) :
-    ((step st op).2.fired = true →
-        st.doneFired = false ∧ (step st op).1.doneFired = true ∧ op.complete = true ∧
-        (step st op).1.pending = []) ∧
-    (st.doneFired = true → (step st op).1.doneFired = true ∧ (step st op).2.fired = false) := by
-  unfold step
+theorem call_done {α} (st : State α) (c : Call α) :
+    ((call st c).2.fired = true →
+        st.doneFired = false ∧ (call st c).1.doneFired = true ∧ c.complete = true ∧
+        (call st c).1.pending = [] ∧ (call st c).1.queue = [] ∧ c.late = []) ∧
+    (st.doneFired = true → (call st c).1.doneFired = true ∧ (call st c).2.fired = false) := by
+  unfold call
   by_cases hd : st.dead = true
   · simp [hd, Outcome.fired]
   · simp only [hd, Bool.false_eq_true, if_false]
@@ -97,9 +97,17 @@ theorem step_done {α} (st : State α) (op : Op α) :
         constructor
         · intro h
           simp only [Bool.and_eq_true, Bool.not_eq_true', List.isEmpty_iff] at h
-          simp [h.1.1, h.1.2, h.2]
+          simp [h.1.1.1, h.1.1.2, h.1.2, h.2]
         · intro h
           simp [h]
+
+theorem step_done {α} (st : State α) (op : Op α) :
+    ((step st op).2.fired = true →
+        st.doneFired = false ∧ (step st op).1.doneFired = true ∧ op.complete = true ∧
+        (step st op).1.pending = [] ∧ (step st op).1.queue = []) ∧
+    (st.doneFired = true → (step st op).1.doneFired = true ∧ (step st op).2.fired = false) := by
+  have h := call_done st { op with late := [] }
+  exact ⟨fun hf => by obtain ⟨a, b, c, d, e, _⟩ := h.1 hf; exact ⟨a, b, c, d, e⟩, h.2⟩
 
 theorem done_count {α} (st : State α) (ops : List (Op α)) :
     ((run st ops).2.filter Outcome.fired).length ≤ (if st.doneFired then 0 else 1) := by
